@@ -612,6 +612,12 @@ def main(argv):
             "nested_where": lambda n: "program p\n" + "where (a > 0)\n" * n + "a = 1\n" + "end where\n" * n + "end program p\n",
             "nested_associate": lambda n: "program p\n" + "".join("associate (v%d => a)\n" % k for k in range(n)) + "x = 1\n" + "end associate\n" * n + "end program p\n",
             "nested_type_contains": lambda n: "module m\ncontains\n" + "".join("subroutine s%d\ncontains\n" % k for k in range(1)) + "subroutine t\nend subroutine t\n" + "".join("end subroutine s%d\n" % k for k in reversed(range(1))) + "end module m\n" + "".join("subroutine u%d\nx = 1\nend subroutine u%d\n" % (k, k) for k in range(n)),
+            "nested_if_through_else": lambda n: "program p\n" + "if (a) then\nx = 1\nelse\n" * n + "x = 2\n" + "end if\n" * n + "end program p\n",
+            "nested_if_through_else_if": lambda n: "program p\n" + "if (a) then\nx = 1\nelse if (b) then\n" * n + "x = 2\n" + "end if\n" * n + "end program p\n",
+            "nested_where_through_elsewhere": lambda n: "program p\n" + "where (a > 0)\na = 1\nelsewhere\n" * n + "a = 2\n" + "end where\n" * n + "end program p\n",
+            "nested_select_through_default": lambda n: "program p\n" + "select case (i)\ncase (1)\nx = 1\ncase default\n" * n + "x = 2\n" + "end select\n" * n + "end program p\n",
+            "nested_do_if_alternating": lambda n: "program p\n" + "do i = 1, 2\nif (a) then\n" * n + "x = 1\n" + "end if\nend do\n" * n + "end program p\n",
+            "nested_block_data_units": lambda n: "".join("subroutine s%d\nx = 1\ncontains\nsubroutine t%d\ny = 2\nend subroutine t%d\nend subroutine s%d\n" % (k, k, k, k) for k in range(n)),
             "select": lambda n: "program p\n" + "".join("select case (i)\ncase (1)\n" for _ in range(n)) + "x = 1\n" + "end select\n" * n + "end program p\n",
             "repeat_assign": lambda n: "program p\n" + "x = x + 1\n" * n + "end program p\n",
             "repeat_loop": lambda n: "program p\n" + "do i = 1, 2\nx = 1\nend do\n" * n + "end program p\n",
